@@ -342,7 +342,7 @@ def engine_a(prop, tier, seed):
     sys.exit(0)
 
 
-SUB_ENGINES = {"C01": ["io", "huge", "freestanding"], "C02": ["zst", "zfull", "huge", "freestanding"], "C03": ["zst", "freestanding", "tiny"], "C04": ["io"], "C07": ["huge", "zst"], "C09": ["own"], "C10": ["zst", "own"], "C11": ["io", "big", "zfull"], "C12": ["big", "tiny"], "C20": ["reloc"]}
+SUB_ENGINES = {"C01": ["io", "huge", "freestanding"], "C02": ["zst", "zfull", "huge", "freestanding"], "C03": ["zst", "freestanding", "tiny"], "C04": ["io"], "C07": ["huge", "zst"], "C09": ["own"], "C10": ["zst", "own"], "C11": ["io", "big", "zfull"], "C12": ["big", "tiny", "zst"], "C20": ["reloc"]}
 
 
 SIMPLE_LABEL = {"huge": "byte_buffers_at_capacities_around_2^32_cases_", "zfull": "full_zero_sized_buffers_at_extreme_capacities_cases_",
